@@ -23,7 +23,7 @@ ASSUMPTIONS = [
     'bool is not used as an Integer/Number value or List item; Selector/ListSelector objects are int/float/str literals',
     'ClassSelector class_ and List item_type are drawn from the literal types (int, float, str) and tuples of them',
 ]
-REQUIRED = {'states_validated': 1500, 'oob_probes': 500, 'schemas_checked': 300, 'customised_instances': 50, 'deep_hierarchy_cases': 40, 'list_item_type_edits': 20}
+REQUIRED = {'class_level_edits_after_first_schema': 30, 'states_validated': 1500, 'oob_probes': 500, 'schemas_checked': 300, 'customised_instances': 50, 'deep_hierarchy_cases': 40, 'list_item_type_edits': 20}
 
 KEYWORDS = {'type', 'anyOf', 'enum', 'minimum', 'maximum', 'exclusiveMinimum', 'exclusiveMaximum', 'minItems', 'maxItems',
             'items', 'additionalItems', 'format', 'properties', 'description', 'title', 'allOf', 'oneOf', 'const',
@@ -99,7 +99,13 @@ def run_case(idx, rng, P, rep):
         rep.count('deep_hierarchy_cases')
     src = cls() if level_inst else (tip if deep else cls)
     customised = False
-    if (level_inst or deep) and rng.random() < (0.6 if level_inst else 1.0):
+    class_edit = not level_inst and not deep and rng.random() < 0.4
+    if class_edit:
+        # the class has produced its schema (and an instance's) once before its own Parameter objects are re-configured
+        cls.param.schema()
+        cls().param.schema()
+        rep.count('class_level_edits_after_first_schema')
+    if (level_inst or deep or class_edit) and rng.random() < (0.6 if level_inst else 1.0):
         # per-instance Parameter objects with their own constraints: schema() of the instance must describe them
         for i, s in enumerate(list(specs)):
             if s['ptype'] in ('Integer', 'Number', 'Range', 'Tuple', 'NumericTuple', 'Selector', 'ListSelector', 'String',
